@@ -103,17 +103,22 @@ inductive LReach : LSt → Prop where
   | step {s s' : LSt} {a : LAct} : LReach s → lstep s a = some s' → LReach s'
 
 /-! iv_thread -/
-/-- reachable states of one created thread while the creator stays in its loop (it does as long as it does not call
-iv_quit: `dead` is a registered object of its loop) -/
+/-- reachable states of one created thread and its creator, every interleaving of the thread's progress, the
+creator's loop, and the creator deinitialising its loop at any moment -/
 inductive TReach (m : ExitMode) : TSt → Prop where
   | init : TReach m { mode := m }
-  | step {s s' : TSt} {a : TAct} : TReach m s → a ≠ .creatorDeinit → tstep s a = some s' → TReach m s'
+  | step {s s' : TSt} {a : TAct} : TReach m s → tstep s a = some s' → TReach m s'
 
-/-- everything about a created thread is a function of how its body ends and how far it got -/
+/-- everything about a created thread is a function of how its body ends, how far it got, and whether the creator's
+loop is gone and who came first -/
 structure TInv (s : TSt) : Prop where
-  dead_reg  : s.deadReg = true ↔ s.pc ≠ .joined
-  dead_owed : s.deadOwed = true ↔ s.pc = .exited
-  posts_eq  : s.posts = if s.pc = .exited ∨ s.pc = .joined then 1 else 0
+  nofault   : s.fault = false
+  dead_reg  : s.deadReg = true ↔ (s.creatorGone = false ∧ s.pc ≠ .joined)
+  dead_owed : s.deadOwed = true ↔ (s.creatorGone = false ∧ s.pc = .exited)
+  exited_iff : s.exited = true ↔ ((s.pc = .exited ∧ s.orphaned = false) ∨ s.pc = .joined)
+  orphan_iff : s.orphaned = true ↔ (s.creatorGone = true ∧ s.pc ≠ .joined ∧ s.exited = false)
+  posts_eq  : s.posts = if s.exited then 1 else 0
+  frees_eq  : s.frees = if s.pc = .joined ∨ (s.creatorGone = true ∧ s.pc = .exited) then 1 else 0
   state_eq  : s.ivState = (decide (s.pc = .body) || (decide (s.pc = .exiting) && !s.mode.deinits && decide (s.mode ≠ .noInit)))
   deinit_eq : s.deinits = match s.pc with
       | .created | .body => 0
@@ -122,9 +127,8 @@ structure TInv (s : TSt) : Prop where
       | .exited | .joined => if s.mode = .noInit then 0 else 1
   body_mode : s.pc = .body → s.mode ≠ .noInit
   nostate_mode : s.pc = .bodyNoState → (s.mode = .noInit ∨ s.mode.deinits = true)
-  here : s.creatorGone = false
-  nofault : s.fault = false
 
+/-- neither the thread nor the creator's loop can do anything more (the creator deinitialising is a user action) -/
 def TStuck (s : TSt) : Prop := ∀ a : TAct, a ≠ .creatorDeinit → tstep s a = none
 
 end Ivy.Work
